@@ -248,6 +248,11 @@ func runC08(c *core.Case) {
 	if script == "handoff-fails-then-loss" {
 		ttl = 3 * time.Second
 	}
+	if script == "renew-errors" && variant%4 == 3 {
+		// the Consul leaser keeps its own renewal clock: give it a TTL above the
+		// store's fixed 1 s retry constant, where that clock decides
+		ttl = 2500 * time.Millisecond
+	}
 	cl.Svc.TTL = ttl
 	// every fourth variant runs the same script with LiteFS's Consul leaser talking
 	// to a fake Consul endpoint that is backed by the same lease service
